@@ -181,6 +181,9 @@ def compare(ctx, label, ops, real, out_line):
 
 
 def corr(ctx, n):
+    if lifecycle.field_kinds() is None:
+        ctx.count('shape.translator_unavailable')
+        return
     lines, reals, opss = [], [], []
     for h in range(n):
         ops = gen_ops(ctx.rng)
